@@ -80,7 +80,7 @@ def run(ctx):
       if cohort < 1:
         continue
       # concrete datasets and derived views (subset of / slice of a larger dataset, subset over SQLite)
-      cfgs.append(('get', ('mem', 'sql', 'subset', 'sqlsub', 'slice', 'memstr')[len(cfgs) % 6], n, cohort))
+      cfgs.append(('get', ('mem', 'sql', 'subset', 'sqlsub', 'slice', 'memstr', 'subsetdup')[len(cfgs) % 7], n, cohort))
   cfgs += [('stream', 'mem', 6, 2), ('stream', 'slice', 6, 3), ('stream', 'subset', 3, 1), ('stream', 'sqlsub', 6, 3), ('stream', 'sql', 10, 4)]
   if not big:
     cfgs = cfgs[::2] + cfgs[-2:]
@@ -89,6 +89,7 @@ def run(ctx):
   for _ in range(4 if big else 2):
     cfgs += [('stream', 'mem', 3, 2), ('stream', 'memstr', 5, 3), ('stream', 'sql', 10, 4)]
   cfgs.append(('get', 'memstr', 6, 3))
+  cfgs.append(('get', 'subsetdup', 3, 2))
   per_cfg = (len(get_h) // 4) if big else 60
   trs = []
   intern_out, intern_key = Interner(), Interner()
@@ -104,7 +105,7 @@ def run(ctx):
       for _ in range(rng.randint(5, 10)):
         if kind == 'get':
           h.append(rng.choice([{'op': 'sample'}, {'op': 'sample'}, {'op': 'set_round', 'r': rng.randint(0, 6)},
-                               {'op': 'new', 'r': rng.randint(0, 6)}]))
+                               {'op': 'new', 'r': rng.randint(0, 6)}, {'op': 'sample_fail'}]))
         else:
           h.append(rng.choice([{'op': 'sample'}, {'op': 'sample'}, {'op': 'new', 'r': rng.randint(0, 4)}]))
       hists.append(h)
